@@ -238,6 +238,14 @@ func fifoInstances(tier string) []Instance {
 			}
 		}
 	}
+	// backlog: three no-send-waiting unicasts keep node 2's sender blocked (slow first handler, window 1), so the
+	// request of the following call is still in the send buffer when that call completes on node 1's answer
+	for _, last := range fifoAlphabet {
+		for _, buf := range []uint{1, 2} {
+			u := callSpec{kind: "Unicast", node: 2, nsw: true}
+			add(fifoParams{seq: []callSpec{u, u, u, last}, buf: buf, window: 1, threads: 1}, 1)
+		}
+	}
 	// triples over a reduced alphabet (one representative per runtime path)
 	red := []callSpec{{kind: "QuorumCall"}, {kind: "QuorumCallAsync"}, {kind: "CorrectableStream"}, {kind: "Multicast"}, {kind: "Multicast", nsw: true}, {kind: "Unicast", node: 2, nsw: true}, {kind: "GRPCCall", node: 2}}
 	for _, a := range red {
@@ -262,7 +270,7 @@ func fifoInstances(tier string) []Instance {
 
 func init() {
 	register(&Check{ID: "C03",
-		Rule: "every ordered pair over 11 call variants (RPC, quorum call, per-node, async, correctable, correctable stream, multicast with/without send-waiting, per-node multicast, unicast with/without send-waiting) x send buffer {0,1,2} x transport window {1,3}, issued by one client thread or by two threads ordered by happens-before, plus every triple over 7 representatives; node 2's first handler is slow so stragglers of earlier calls are still queued; all schedules within the deviation bound; oracle: per server the handler start order equals the issue order, no handler twice, every targeted server handles every call; an outcome is (instance, number of handler starts)",
+		Rule: "every ordered pair over 11 call variants (RPC, quorum call, per-node, async, correctable, correctable stream, multicast with/without send-waiting, per-node multicast, unicast with/without send-waiting) x send buffer {0,1,2} x transport window {1,3}, issued by one client thread or by two threads ordered by happens-before, plus every triple over 7 representatives and a backlog family (three queued one-way messages, then each variant, send buffer {1,2}); node 2's first handler is slow so stragglers of earlier calls are still queued; all schedules within the deviation bound; oracle: per server the handler start order equals the issue order, no handler twice, every targeted server handles every call; an outcome is (instance, number of handler starts)",
 		Gen:  fifoInstances,
 		Assumptions: []string{"transport is the fakegrpc model (ordered frames per stream, bounded window); quorum size 1 of 2", "interleavings up to the reported deviation bound"},
 	})
